@@ -8,41 +8,68 @@ import time
 VERIF = os.path.dirname(os.path.dirname(os.path.abspath(__file__)))
 
 
+BOUNDED = {
+ 'C01': ('Display / from_str round trip (Display is write!-based, the grammar is nom: outside the verifier)',
+         'the corpus of ~370 D-symbols (8 parsed, the rest pseudo-random involution tables of size <= 8, dimension <= 3, fixed seed): print, parse, compare; '
+         'plus ~2300 malformed strings (hand-written corner cases and single-character edits of valid text): no panic, Ok => involutions and degrees multiples of r'),
+ 'C02': ('Traversal, orbit, orbit_reps, is_connected, is_loopless, is_weakly_oriented, is_oriented (stateful iterator over BTreeMap/VecDeque/HashSet: outside the verifier)',
+         'the same corpus; ALL index lists in ascending and descending order plus two mixed ones; all seeds: orbit = reachable set, one representative per component, '
+         'every i-edge of a traversed component exactly once, predicates = reachability / bipartiteness computed independently; r/v/m of both representations on every '
+         '(i, j, d) including out-of-range values'),
+ 'C04': ('fold, is_minimal, minimal_image (congruence closure over the union-find: no proof yet)',
+         'connected complete corpus symbols of size <= 5, their oriented covers, all covers with <= 4 sheets of six one- and two-chamber symbols: is_minimal / size of '
+         'minimal_image against the coarsest degree-respecting congruence computed by partition refinement; a symbol maps onto its minimal image; covers and base have '
+         'minimal images of equal size; morphism None against brute force over all maps for sizes <= 4'),
+ 'C05': ('degree preservation of oriented_cover (the deductive contract covers operations only)',
+         'complete corpus symbols of size <= 5: projection commutes with every operation and preserves every degree m(i, i+1)'),
+ 'C10': ('(every clause is also decided deductively)', 'all words over 2 generators up to length 5 and all pairs of reduced words up to length 3, exponents -3..3, rotations -3..6'),
+ 'C11': ('coset_table (Todd-Coxeter with coincidences, RangeFrom loops, BTreeSet iteration, merge/compact: outside the verifier)',
+         '13 fixed presentations (<= 3 generators, index <= 60) and 210 pseudo-random subgroups (1-3 generators, words of length <= 4, fixed seed) of the Coxeter groups S4 and S5, '
+         'index computed independently from the permutation representation: row count = index, generators act as mutually inverse permutations, transitive, every relator closes at '
+         'every row, subgroup generators fix row 0, coset representatives trace to their rows'),
+ 'C18': ('exact rank / determinant / solve of the machine-integer backend (matrix algebra over generic Entry: outside the contracts)',
+         '600 random integer matrices of every shape up to 4x5 (rank against fraction-free elimination on i128) and 400 square ones up to 4x4 (determinant against Bareiss on i128, '
+         'solve returns true solutions), entries in -3..=3, fixed seed; residues: 217 boundary and random integers for P in {2, 3, 61, 3037000493}'),
+ 'C20': ('(every clause is also decided deductively, at T = usize)', '1500 random mixed histories (unite / find / classes on random sub-multisets / clone) and 30000 union-heavy histories over <= 9 elements, '
+         'both partitions, compared with a naive model; clones compared with the model at cloning time'),
+}
+
+
 def for_property(prop, tier):
+    out = []
     if prop == 'C18':
-        return [kani_prime_residue]
-    if prop == 'C11':
-        return [bounded_coset_table]
-    return []
+        out.append(kani_prime_residue)
+    if prop in BOUNDED:
+        out.append(lambda repo, work, tier, seed, prop=prop: bounded_sweep(prop, repo))
+    return out
 
 
-def bounded_coset_table(repo, work, tier, seed):
-    """BOUNDED stand-in (never counted as proved): coset_table itself is outside the verifier's reach (Todd-Coxeter with coincidences,
-    RangeFrom loops, BTreeSet iteration, merge/compact).  The main clause of C11 is executed on a fixed list of thirteen small
-    presentations on the real crate."""
+def bounded_sweep(prop, repo):
+    """BOUNDED stand-in (labelled bounded, never counted as proved): the clauses of the property that no contract in reach decides are
+    executed on the real crate over the stated finite domain (replay/falsifier.rs).  A discrepancy is a concrete failing execution
+    of the real code and is reported as a violation with that input."""
     import falsify
-    res = {'name': 'bounded:coset_table', 'failures': [], 'undecided': [], 'obligations': 0, 'failed': 0, 'samples': [], 'trusted': [],
-           'bounded': [{'function': 'fpgroups::cosets::coset_table', 'kind': 'bounded stand-in, NOT a proof',
-                        'bound': '13 fixed presentations (<= 3 generators, index <= 60) and 210 pseudo-random subgroups (1-3 generators, words of length <= 4, fixed seed) of the Coxeter groups S4 and S5, index computed independently from the permutation representation (replay/falsifier.rs, section C11)',
-                        'checks': 'row count = index, every generator a permutation whose inverse is the inverse generator, transitive, '
-                                  'every relator closes at every row, subgroup generators fix row 0'}]}
-    r = falsify.run('C11', repo)
+    what, bound = BOUNDED[prop]
+    res = {'name': 'bounded:%s' % prop, 'failures': [], 'undecided': [], 'obligations': 0, 'failed': 0, 'samples': [], 'trusted': [],
+           'bounded': [{'stands_in_for': what, 'kind': 'bounded stand-in, NOT a proof', 'bound': bound}]}
+    r = falsify.run(prop, repo)
     res['cmd'] = r['cmd']
     res['wall'] = r.get('wall')
     if r['error']:
         res['undecided'].append(r['error'])
         return res
-    bad = [l for l in r['lines'] if l[0] == 'coset_table']
-    res['bounded'][0]['result'] = 'no discrepancy' if not bad else '%d discrepancies' % len(bad)
+    res['bounded'][0]['result'] = 'no discrepancy' if not r['lines'] else '%d discrepancies' % len(r['lines'])
     seen_inputs = set()
-    for tag, inp, what in bad:
-        if inp in seen_inputs:
+    for tag, inp, what_obs in r['lines']:
+        key = (tag, inp)
+        if key in seen_inputs or len(seen_inputs) >= 8:
             continue
-        seen_inputs.add(inp)      # one failed bounded obligation per distinct input, so that known findings can be matched per input
-        res['failures'].append({'unit': 'bounded', 'function': 'coset_table', 'kind': 'bounded', 'backend': 'executed on the real crate (bounded stand-in)',
-                                'message': what, 'site': inp, 'props': ['C11'], 'rendered': r['raw'][-1500:],
-                                'counterexample': {'source': 'replay/falsifier.rs executed on the real crate', 'function': 'coset_table', 'input': inp,
-                                                   'observed': what, 'all_discrepancies': len([b for b in bad if b[1] == inp]), 'cmd': r['cmd']}})
+        seen_inputs.add(key)      # one failed bounded obligation per distinct (function, input): known findings are matched per input
+        fn = re.sub(r'[^A-Za-z0-9_:]+', '_', tag.split(' ')[0])
+        res['failures'].append({'unit': 'bounded', 'function': fn, 'kind': 'bounded', 'backend': 'executed on the real crate (bounded stand-in)',
+                                'message': what_obs, 'site': inp, 'props': [prop], 'rendered': r['raw'][-1500:],
+                                'counterexample': {'source': 'replay/falsifier.rs executed on the real crate', 'function': tag, 'input': inp,
+                                                   'observed': what_obs, 'cmd': r['cmd']}})
     return res
 
 
